@@ -36,6 +36,11 @@ fn build(code: &[Value], i: usize) -> (T, usize) {
             let (r, k) = build(code, j);
             (Type::function_type(if g == "fn" { ArgType::Explicit } else { ArgType::Implicit }, vec![l], r), k)
         }
+        "afn" => {
+            let (l, j) = build(code, i + 1);
+            let (r, k) = build(code, j);
+            (Type::app(Type::builtin(gluon_base::types::BuiltinType::Function), vec![l, r].into_iter().collect()), k)
+        }
         "app1" => {
             let (x, j) = build(code, i + 1);
             (Type::app(ident("List"), vec![x].into_iter().collect()), j)
@@ -108,6 +113,14 @@ where
             }
             out.push_str("] ");
             sexp(inner, out);
+            out.push(')');
+        }
+        Type::App(f, args) if args.len() == 2 && matches!(&**f, Type::Builtin(gluon_base::types::BuiltinType::Function)) => {
+            // the applied representation of a function type denotes the same type as the arrow
+            out.push_str("(fn ");
+            sexp(&args[0], out);
+            out.push(' ');
+            sexp(&args[1], out);
             out.push(')');
         }
         Type::App(f, args) => {
